@@ -130,6 +130,15 @@ func runSpec(ctx context.Context, r *gkit.Runner, env *gkit.CallEnv, c CaseGraph
 		}
 		v, _, err := gkit.DrainAny(sr)
 		return v, err
+	case "collect":
+		return r.Collect(ctx, gkit.ChunkInput(in, 2), opts...)
+	case "transform":
+		sr, err := r.Transform(ctx, gkit.ChunkInput(in, 2), opts...)
+		if err != nil {
+			return nil, err
+		}
+		v, _, err := gkit.DrainAny(sr)
+		return v, err
 	default:
 		return r.Invoke(ctx, in, opts...)
 	}
